@@ -248,7 +248,7 @@ def check(case):
                 for (gn, gp, gw), (en, ep, ew) in zip(got, exp):
                     if gn != en or gw != ew:
                         ok = False
-                    elif (ep is None or ep == 0) != (gp is None) and not (ep == 0 and gp is None):
+                    elif (ep is None) != (gp is None):
                         ok = False
                     elif ep is not None and gp is not None and abs(gp - float(ep)) > 0.0051:
                         ok = False
